@@ -307,7 +307,8 @@ async def _main(world, case):
     await asyncio.sleep(0.02)
     cur = asyncio.current_task()
     left = [t for t in asyncio.all_tasks(loop) if t not in base_tasks and t is not cur and not t.done() and t not in mine]
-    out["left_tasks"] = sorted(getattr(t.get_coro(), "__qualname__", "?") for t in left)
+    out["left_tasks"] = sorted((getattr(t, "c19", None) or {}).get("name") or getattr(t.get_coro(), "__qualname__", "?")
+                               for t in left)
     out["left_threads"] = sorted(th.name for th in threading.enumerate()
                                  if th not in base_threads and th.is_alive() and not th.name.startswith("asyncio_"))
     out["left_timers"] = sorted(set(final[0]["timers"] + final[1]["timers"]))
